@@ -497,6 +497,11 @@ impl<'a> Evaluator<'a> {
                 lost.extend(q.chains[0].steps.iter().filter_map(|(e, _)| e.var.clone()));
             }
             *self.lost_edges.borrow_mut() = lost;
+            // a variable-length hop in the second pattern re-materialises its input rows: type() of the
+            // first pattern's edges is lost as well
+            if q.chains.len() > 1 && q.chains[1].steps.iter().any(|(e, _)| e.hops.is_some()) {
+                *self.lost_types.borrow_mut() = true;
+            }
         }
         let mut rows = self.bindings(q);
         if let Some(f) = &q.filter {
